@@ -4,8 +4,10 @@
     [parse_comments]      = [ContentReader.parseComments] (flags, comment collection, diagnostics, masking)
     [empty_line]          = [ContentReader.emptyCurrentLine]
     [reader_impl tp f]    = the reader's state after the whole file was consumed through [Read]:
-                            masked bytes handed to yaml ([r_out]), [lines], [comments], [diagnostics], [lineno]
-                            and the four flags.
+                            masked bytes ([r_out]), [lines], [comments], [diagnostics], [lineno] and the four flags.
+    [r_yaml r]            = the bytes handed to the yaml decoder: since fix 670b316 [readNextLine] turns a trailing
+                            CR LF of the (masked) chunk into LF after it appended the chunk to [lines]; a chunk
+                            contains no LF but its last byte, so this is [crlf_to_lf] of the concatenation [r_out].
     An I/O error of the underlying reader is not modelled (the input is a byte string). *)
 From Coq Require Import List String Ascii NArith ZArith Bool Arith.
 From PintV Require Import Common.Bytes Model.CommentsUnicode Model.Comments.
@@ -120,3 +122,23 @@ Definition reader_chunks (bs : list string) (r : rd) : rd := fold_left read_line
 Definition reader_impl (f : string) : rd := reader_chunks (chunks f) rd_init.
 
 End WithTime.
+
+(** fix 670b316: [if n := len(r.buf); n >= 2 && r.buf[n-2] == '\r' && r.buf[n-1] == '\n' { r.buf = append(r.buf[:n-2], '\n') }]
+    applied to every chunk after [r.lines] was extended.  Every LF of the concatenation is the last byte of a chunk,
+    so dropping the CR of each chunk-final CR LF is dropping every CR that is directly followed by LF. *)
+Definition cr : ascii := ascii_of_N 13.
+
+Fixpoint crlf_to_lf (s : string) : string :=
+  match s with
+  | EmptyString => EmptyString
+  | String c r =>
+      if Ascii.eqb c cr then
+        match r with
+        | String d _ => if Ascii.eqb d nl then crlf_to_lf r else String c (crlf_to_lf r)
+        | EmptyString => String c EmptyString
+        end
+      else String c (crlf_to_lf r)
+  end.
+
+(** the bytes handed to the yaml decoder *)
+Definition r_yaml (r : rd) : string := crlf_to_lf (r_out r).
